@@ -7,6 +7,7 @@
 //     of DirentCache.Read + maxDirents + writeDirents (r.*);
 //   - histories of <= 60 WASI calls over a small tree on a temp dir through a real guest on both engines,
 //     compared op by op with the reference file system (f.*), then the host tree with the model's tree.
+//
 // Tie C (the property's own predicates on the real code): Insert returns the lowest free key and lookups
 // follow a shadow map; a live descriptor renumbered onto itself stays usable; a complete fd_readdir
 // enumeration yields ".", "..", then every created name exactly once; file contents on the host equal what
@@ -61,7 +62,12 @@ func main() {
 			readdirSweep(root)
 		}
 	}()
-	go func() { defer wg.Done(); histories(root, selfNoop); openGrid(root, selfNoop) }()
+	go func() {
+		defer wg.Done()
+		histories(root, selfNoop)
+		openGrid(root, selfNoop)
+		renameGrid(root, selfNoop)
+	}()
 	wg.Wait()
 	rep.Write(orc)
 }
